@@ -1,22 +1,50 @@
 """Independent SCTE-35 splice_info_section decoder (ANSI/SCTE 35, section 9 and 10).
 
-Nothing here comes from the code under test: stdlib only.  The decoder follows the
-bit syntax tables of the standard literally, top to bottom:
+Nothing here comes from the code under test: stdlib only.  The decoder follows the bit
+syntax tables of the standard (clause 9: splice_info_section, the splice commands and the
+time structures; clause 10: splice descriptors) literally, top to bottom:
 
-  splice_info_section()                                       9.6
-  splice_null 0x00, splice_schedule 0x04, splice_insert 0x05,
-  time_signal 0x06, bandwidth_reservation 0x07, private_command 0xff   9.7
-  splice_time(), break_duration()                             9.8
-  avail 0x00, DTMF 0x01, segmentation 0x02, time 0x03, audio 0x04
-  descriptors; every other tag is returned as raw private bytes        10
+  splice_info_section()
+  splice_null 0x00, splice_schedule 0x04, splice_insert 0x05, time_signal 0x06,
+  bandwidth_reservation 0x07, private_command 0xff
+  splice_time(), break_duration()
+  avail 0x00, DTMF 0x01, segmentation 0x02, time 0x03, audio 0x04 descriptors; every other
+  tag is returned as raw private bytes
 
-CRC-32/MPEG-2: polynomial 0x04C11DB7, initial value 0xFFFFFFFF, not reflected, no
-final xor; a section that includes its CRC_32 field has residue 0.
+CRC-32/MPEG-2: polynomial 0x04C11DB7, initial value 0xFFFFFFFF, not reflected, no final
+xor; a section that includes its CRC_32 field has residue 0.
 
-decode_section(data) -> plain dict (ints, bools, bytes, lists, dicts).  ScteError is
-raised when the bytes cannot be walked with the syntax (truncation, a length field that
-contradicts the fields it covers).  A wrong CRC or a section_length that does not cover
-the buffer exactly are NOT errors: they are reported as crc_ok / length_ok.
+decode_section(data) -> plain dict (ints, bools, bytes, lists, dicts):
+
+  table_id, section_syntax_indicator, private_indicator, sap_type, section_length,
+  protocol_version, encrypted_packet, encryption_algorithm, pts_adjustment, cw_index, tier,
+  splice_command_length, splice_command_type, command_name, command, descriptor_loop_length,
+  descriptors, crc_32,
+  crc_ok       CRC-32/MPEG-2 over the whole section (CRC_32 included) is 0
+  length_ok    section_length + 3 == len(data)
+  reserved_ok  every reserved bit that was walked is 1
+
+  command, splice_insert: splice_event_id, cancel and, unless cancelled, out_of_network,
+      program_splice, duration_flag, immediate, splice_time {time_specified, pts} | None,
+      components [{tag, splice_time | None}], break_duration {auto_return, duration} | None,
+      unique_program_id, avail_num, avails_expected
+  command, time_signal: splice_time {time_specified, pts}
+  command, splice_schedule: splices [{splice_event_id, cancel, out_of_network, program_splice,
+      duration_flag, utc_splice_time | None, components [{tag, utc_splice_time}],
+      break_duration | None, unique_program_id, avail_num, avails_expected}]
+  command, private_command: identifier, private_bytes;   splice_null, bandwidth_reservation: {}
+  descriptors: [{tag, name, length, identifier, <fields of the descriptor>, trailing, reserved_ok}]
+      segmentation: segmentation_event_id, cancel, program_segmentation, duration_flag,
+      delivery_not_restricted, web_delivery_allowed, no_regional_blackout, archive_allowed,
+      device_restrictions (None when delivery is not restricted), components [{tag, pts_offset}],
+      segmentation_duration | None, upid_type, upid, segmentation_type_id, segment_num,
+      segments_expected, sub_segment_num | None, sub_segments_expected | None
+
+With encrypted_packet set, command and descriptors are None and encrypted_payload holds the
+cipher text.  ScteError (attributes kind, where) is raised when the bytes cannot be walked
+with the syntax: truncation, or a length field that contradicts the fields it covers.  A
+wrong CRC or a section_length that does not cover the buffer exactly are NOT errors: they
+are reported as crc_ok / length_ok.
 """
 from __future__ import annotations
 
@@ -590,23 +618,26 @@ if __name__ == "__main__":
     s = decode_section(good + b"\x00")
     eq((s["crc_ok"], s["length_ok"]), (True, False), "trailing byte")
 
-    def raises(buf, what):
+    def raises(buf, kind, where, what):
         global checks
         checks += 1
         try:
             decode_section(buf)
-        except ScteError:
+        except ScteError as exc:
+            assert (exc.kind, exc.where) == (kind, where), f"{what}: {exc.kind}/{exc.where}"
             return
         raise AssertionError(what + ": no ScteError")
 
-    raises(good[:-1], "truncated section")
-    raises(b"\xfc\x30", "two bytes")
-    raises(section(0x06, _W().u(1, 1).u(6, 0x3F).u(33, 1).bytes(), clen=4), "command length too short")
-    raises(section(0x06, _W().u(1, 1).u(6, 0x3F).u(33, 1).bytes() + b"\xff", b""), "command length too long")
+    raises(good[:-1], "truncated", "section", "truncated section")
+    raises(b"\xfc\x30", "truncated", "section", "two bytes")
+    raises(section(0x06, _W().u(1, 1).u(6, 0x3F).u(33, 1).bytes(), clen=4), "command-length", "time_signal",
+           "command length too short")
+    raises(section(0x06, _W().u(1, 1).u(6, 0x3F).u(33, 1).bytes() + b"\xff", b""), "command-length", "time_signal",
+           "command length too long")
     bad_desc = bytes([0, 9]) + cuei + b"\x00\x00\x00\x01"       # descriptor_length beyond the loop
-    raises(section(0x00, b"", bad_desc), "descriptor length beyond loop")
+    raises(section(0x00, b"", bad_desc), "loop-length", "avail_descriptor", "descriptor length beyond loop")
     short = bytes([0, 6]) + cuei + b"\x00\x00"                   # avail_descriptor too short for its field
-    raises(section(0x00, b"", short), "descriptor shorter than its fields")
+    raises(section(0x00, b"", short), "descriptor-length", "avail_descriptor", "descriptor shorter than its fields")
     # legacy splice_command_length 0xFFF
     s = decode_section(section(0x06, _W().u(1, 1).u(6, 0x3F).u(33, 77).bytes(), dtmf, clen=0xFFF))
     eq((s["command"]["splice_time"]["pts"], len(s["descriptors"])), (77, 1), "legacy command length")
